@@ -1,8 +1,8 @@
 package main
 
 import (
-	"go/constant"
 	"fmt"
+	"go/constant"
 	"go/token"
 	"go/types"
 	"sort"
@@ -395,78 +395,109 @@ func rulesExtract(p *Prog, r *Report, eng *Engine) {
 		op  ssa.Value
 		pos token.Pos
 	}
-	var parts []textPart
-	for _, b := range pr.Blocks {
-		for _, in := range b.Instrs {
-			switch t := in.(type) {
-			case *ssa.BinOp:
-				if t.Op == token.ADD && isStringType(t.Type()) {
-					parts = append(parts, textPart{t.X, t.Pos()}, textPart{t.Y, t.Pos()})
-				}
-			case *ssa.Call:
-				callee := t.Call.StaticCallee()
-				if callee == nil || len(t.Call.Args) != 2 {
-					continue
-				}
-				switch callee.String() {
-				case "(*strings.Builder).WriteString", "(*bytes.Buffer).WriteString":
-					parts = append(parts, textPart{t.Call.Args[1], t.Pos()})
-				case "(*strings.Builder).WriteByte", "(*bytes.Buffer).WriteByte", "(*strings.Builder).WriteRune", "(*bytes.Buffer).WriteRune":
-					if c, ok := t.Call.Args[1].(*ssa.Const); ok && c.Value != nil && c.Value.Kind() == constant.Int {
-						consts[string(rune(c.Int64()))] = t.Pos()
-					} else {
-						bad = append(bad, fmt.Sprintf("%s: a non-constant character is written into the canonical text", p.pos(t.Pos())))
+	helpers := map[*ssa.Function]bool{}
+	var collect func(cur *ssa.Function, depth int)
+	collect = func(cur *ssa.Function, depth int) {
+		var parts []textPart
+		for _, b := range cur.Blocks {
+			for _, in := range b.Instrs {
+				switch t := in.(type) {
+				case *ssa.BinOp:
+					if t.Op == token.ADD && isStringType(t.Type()) {
+						parts = append(parts, textPart{t.X, t.Pos()}, textPart{t.Y, t.Pos()})
+					}
+				case *ssa.Call:
+					callee := t.Call.StaticCallee()
+					if callee != nil && p.InModule(callee) && len(callee.Blocks) > 0 && isStringType(t.Type()) && depth < 3 && !helpers[callee] &&
+						!(isNodeMethod(callee, nodeType(p)) && len(t.Call.Args) == 1 && t.Call.Args[0] == pr.Params[0]) {
+						// a helper that renders a part of the text (n.lic.reconstructedString()): its parts are the
+						// printer's parts, with its parameters bound to what the printer passes
+						helpers[callee] = true
+						descs := make([]string, len(callee.Params))
+						for i := range callee.Params {
+							if i < len(t.Call.Args) {
+								descs[i] = qz.prov(t.Call.Args[i], 0)
+							}
+						}
+						for i, prm := range callee.Params {
+							if i < len(t.Call.Args) {
+								qz.elemVar[prm] = descs[i]
+							}
+						}
+						collect(callee, depth+1)
+						for _, prm := range callee.Params {
+							delete(qz.elemVar, prm)
+						}
+						continue
+					}
+					if callee == nil || len(t.Call.Args) != 2 {
+						continue
+					}
+					switch callee.String() {
+					case "(*strings.Builder).WriteString", "(*bytes.Buffer).WriteString":
+						parts = append(parts, textPart{t.Call.Args[1], t.Pos()})
+					case "(*strings.Builder).WriteByte", "(*bytes.Buffer).WriteByte", "(*strings.Builder).WriteRune", "(*bytes.Buffer).WriteRune":
+						if c, ok := t.Call.Args[1].(*ssa.Const); ok && c.Value != nil && c.Value.Kind() == constant.Int {
+							consts[string(rune(c.Int64()))] = t.Pos()
+						} else {
+							bad = append(bad, fmt.Sprintf("%s: a non-constant character is written into the canonical text", p.pos(t.Pos())))
+						}
 					}
 				}
 			}
 		}
-	}
-	{
 		{
-			for _, tp := range parts {
-				op := tp.op
-				bo := tp
-				if s, ok := constString(op); ok {
-					consts[s] = tp.pos
-					continue
-				}
-				if _, isBin := op.(*ssa.BinOp); isBin {
-					continue
-				}
-				if _, isPhi := op.(*ssa.Phi); isPhi {
-					continue
-				}
-				pv := qz.prov(op, 0)
-				// *accessor(n) : accessor is a node method returning *string
-				okSrc := false
-				if ld, isLd := op.(*ssa.UnOp); isLd && ld.Op == token.MUL {
-					if c, isCall := ld.X.(*ssa.Call); isCall && c.Call.StaticCallee() != nil && isNodeMethod(c.Call.StaticCallee(), nodeType(p)) && len(c.Call.Args) == 1 && c.Call.Args[0] == pr.Params[0] {
+			{
+				for _, tp := range parts {
+					op := tp.op
+					bo := tp
+					if s, ok := constString(op); ok {
+						consts[s] = tp.pos
+						continue
+					}
+					if _, isBin := op.(*ssa.BinOp); isBin {
+						continue
+					}
+					if _, isPhi := op.(*ssa.Phi); isPhi {
+						continue
+					}
+					pv := qz.prov(op, 0)
+					// *accessor(n) : accessor is a node method returning *string
+					okSrc := false
+					if ld, isLd := op.(*ssa.UnOp); isLd && ld.Op == token.MUL {
+						if c, isCall := ld.X.(*ssa.Call); isCall && c.Call.StaticCallee() != nil && isNodeMethod(c.Call.StaticCallee(), nodeType(p)) && len(c.Call.Args) == 1 && c.Call.Args[0] == pr.Params[0] {
+							okSrc = true
+							fieldsUsed[c.Call.StaticCallee().Name()] = true
+						}
+						if al, isAl := ld.X.(*ssa.Alloc); isAl {
+							_ = al
+							okSrc = true // the local string being built
+						}
+					}
+					// accessor(n) returning the string by value
+					if c, isCall := op.(*ssa.Call); isCall && c.Call.StaticCallee() != nil && isNodeMethod(c.Call.StaticCallee(), nodeType(p)) && len(c.Call.Args) == 1 && c.Call.Args[0] == pr.Params[0] && isStringType(c.Type()) {
 						okSrc = true
 						fieldsUsed[c.Call.StaticCallee().Name()] = true
 					}
-					if al, isAl := ld.X.(*ssa.Alloc); isAl {
-						_ = al
-						okSrc = true // the local string being built
+					// a direct read of a field of the node's partials (n.lic.license, n.ref.licenseRef …)
+					if ld, isLd := op.(*ssa.UnOp); isLd && ld.Op == token.MUL {
+						if fa, isFA := ld.X.(*ssa.FieldAddr); isFA && strings.HasPrefix(pv, "param:"+pr.Params[0].Name()+".") {
+							okSrc = true
+							fieldsUsed[fieldOf(fa).Field] = true
+						}
 					}
-				}
-				// accessor(n) returning the string by value
-				if c, isCall := op.(*ssa.Call); isCall && c.Call.StaticCallee() != nil && isNodeMethod(c.Call.StaticCallee(), nodeType(p)) && len(c.Call.Args) == 1 && c.Call.Args[0] == pr.Params[0] && isStringType(c.Type()) {
-					okSrc = true
-					fieldsUsed[c.Call.StaticCallee().Name()] = true
-				}
-				// a direct read of a field of the node's partials (n.lic.license, n.ref.licenseRef …)
-				if ld, isLd := op.(*ssa.UnOp); isLd && ld.Op == token.MUL {
-					if fa, isFA := ld.X.(*ssa.FieldAddr); isFA && strings.HasPrefix(pv, "param:"+pr.Params[0].Name()+".") {
+					// the result of a rendering helper (its own parts are judged where it is defined)
+					if c, isCall := op.(*ssa.Call); isCall && c.Call.StaticCallee() != nil && helpers[c.Call.StaticCallee()] {
 						okSrc = true
-						fieldsUsed[fieldOf(fa).Field] = true
 					}
-				}
-				if !okSrc {
-					bad = append(bad, fmt.Sprintf("%s: text part %s is not a canonical field of the node", p.pos(bo.pos), pv))
+					if !okSrc {
+						bad = append(bad, fmt.Sprintf("%s: text part %s is not a canonical field of the node", p.pos(bo.pos), pv))
+					}
 				}
 			}
 		}
 	}
+	collect(pr, 0)
 	// accessor results that are loaded at all (plain assignments `license := *n.license()` included)
 	for _, b := range pr.Blocks {
 		for _, in := range b.Instrs {
